@@ -27,11 +27,7 @@ func propC17(c *Ctx, r *Report) {
 	ruleSettleOnceFam(c, r, "C17-P13/settle-once")
 	// what history lists as an output was credited: every transfer output but the burn address's (shared with C03-R8)
 	r.rule("C17-P14/outputs-credited", 1, "only the burn address is exempt from being credited")
-	for _, a := range c.findCallsFam(c.fn("node.Pegnetd.recordBatch"), "pegnet.Pegnet.AddToBalance") {
-		if typePath(a.Common().Args[4]) == "fat2.AddressAmountTuple.Amount" {
-			burnExemptionRule(c, r, a.Parent(), a, "C17-P14/outputs-credited", "")
-		}
-	}
+	ruleOutputsCredited(c, r, "C17-P14/outputs-credited")
 	// the scheduled burn removes what remains, as a replay of the history assumes (shared with C15)
 	ruleMintBurnScope(c, r, "C17-P15/mint-burn-scope")
 	rb := c.fn("node.Pegnetd.recordBatch")
